@@ -96,6 +96,7 @@ func (s *State) Mem(path string) (AV, bool) { v, ok := s.mem[path]; return v, ok
 // PathResult is the outcome of one enumerated path.
 type PathResult struct {
 	Ret       []AV
+	Exit      ssa.Instruction // the Return or Panic that ended the path
 	Panicked  bool
 	LoopCut   bool
 	Calls     []ssa.CallInstruction // calls executed (in order), including those in interpreted callees
@@ -237,6 +238,9 @@ func (in *Interp) runBlock(b *ssa.BasicBlock, start int, st *State, depth int, p
 			return
 		case *ssa.Return:
 			pr.Ret = nil
+			if depth == 0 {
+				pr.Exit = n
+			}
 			for _, r := range n.Results {
 				pr.Ret = append(pr.Ret, in.eval(r, st))
 			}
@@ -244,6 +248,9 @@ func (in *Interp) runBlock(b *ssa.BasicBlock, start int, st *State, depth int, p
 			k(st, pr)
 			return
 		case *ssa.Panic:
+			if depth == 0 {
+				pr.Exit = n
+			}
 			pr.Panicked = true
 			pr.Ret = nil
 			in.count()
